@@ -109,13 +109,25 @@ theorem check_genesis_declared (c : Config) (h : checkGenesis c = .ok) :
   exact this
 
 /-- T4c `check_genesis_sound_partial` (supply): accepted ⇒ the LEDGER balances of every declared token add up to its
-    TotalSupply — under the extra premise that no address has two `GenesisBlocks` entries. The code never checks that
-    premise (`supply_duplicate_entry_accepted`). -/
+    TotalSupply — under two extra premises the code never checks: no address has two `GenesisBlocks` entries
+    (`supply_duplicate_entry_accepted`) and no amount is negative (`supply_negative_entry_accepted`: the ledger keeps
+    the absolute value). -/
 theorem check_genesis_supply_partial (c : Config) (hwf : c.WF) (h : checkGenesis c = .ok)
-    (hnd : (c.blocks.map (·.addr)).Nodup) : ∀ t ∈ c.tokens, ledgerSupply c t.zts = t.total := by
+    (hnd : (c.blocks.map (·.addr)).Nodup) (hnn : c.NonNeg) : ∀ t ∈ c.tokens, ledgerSupply c t.zts = t.total := by
   intro t ht
-  rw [ledgerSupply_eq_givenSum c hwf hnd]
+  rw [ledgerSupply_eq_givenSum c hwf hnn hnd]
   exact (check_genesis_entries_sum c h t ht).1
+
+/-- negative witness: entries of −7 and +12, TotalSupply 5 — accepted, the ledger holds 7 + 12 = 19. -/
+theorem supply_negative_entry_accepted :
+    ∃ c : Config, c.WF ∧ (c.blocks.map (·.addr)).Nodup ∧ checkGenesis c = .ok ∧
+      ∃ t ∈ c.tokens, ledgerSupply c t.zts ≠ t.total := by
+  refine ⟨{ blocks := [⟨[0, 7], [(Gen.ZnnTokenStandard, -7)]⟩, ⟨[0, 8], [(Gen.ZnnTokenStandard, 12)]⟩],
+            tokens := [⟨Gen.ZnnTokenStandard, 5, 100⟩] }, ?_, by decide, by decide,
+          ⟨Gen.ZnnTokenStandard, 5, 100⟩, by simp, by decide⟩
+  intro b hb
+  simp only [List.mem_cons, List.mem_nil_iff, or_false] at hb
+  rcases hb with rfl | rfl <;> simp
 
 /-- negative witness: one address with two entries of 5, TotalSupply 10 — accepted, the ledger holds 5. -/
 theorem supply_duplicate_entry_accepted :
@@ -127,17 +139,19 @@ theorem supply_duplicate_entry_accepted :
   subst hb
   simp
 
-/-- T4d `check_genesis_sound_partial` (plasma): accepted ⇒ the plasma contract holds exactly the sum of the fusions
-    in QSR and nothing else — under the extra premise that the plasma contract HAS a `GenesisBlocks` entry (or the
+/-- T4d `check_genesis_sound_partial` (plasma): accepted ⇒ the plasma contract holds exactly (the absolute value
+    of — amounts are stored unsigned) the sum of the fusions in QSR and nothing else — under the extra premise that the plasma contract HAS a `GenesisBlocks` entry (or the
     fusions add up to zero). `checkAccountBalance` returns nil when there is no entry (`plasma_no_entry_accepted`). -/
 theorem check_genesis_plasma_partial (c : Config) (h : checkGenesis c = .ok)
     (hex : fusionSum c = 0 ∨ ∃ b ∈ c.blocks, b.addr = Gen.PlasmaContract) :
-    ledgerBalance c Gen.PlasmaContract Gen.QsrTokenStandard = fusionSum c ∧
+    ledgerBalance c Gen.PlasmaContract Gen.QsrTokenStandard = stored (fusionSum c) ∧
+      (0 ≤ fusionSum c → ledgerBalance c Gen.PlasmaContract Gen.QsrTokenStandard = fusionSum c) ∧
       ∀ z, z ≠ Gen.QsrTokenStandard → ledgerBalance c Gen.PlasmaContract z = 0 := by
   have h2 := (checkGenesis_ok c h).2.1
   unfold checkPlasmaInfo at h2
   rw [Bool.and_eq_true] at h2
-  refine ⟨held_required c _ _ h2.2 _ _ (by simp [lookup]) hex, ?_⟩
+  have hq := held_required c _ _ h2.2 Gen.QsrTokenStandard (fusionSum c) (by simp [lookup]) hex
+  refine ⟨hq, fun h0 => by rw [hq, stored_nonneg _ h0], ?_⟩
   intro z hz
   exact held_not_required c _ _ h2.2 z (by simp [lookup, Ne.symm hz])
 
@@ -164,11 +178,13 @@ theorem plasma_no_entry_accepted :
     same extra premise, same gap. -/
 theorem check_genesis_pillar_partial (c : Config) (h : checkGenesis c = .ok)
     (hex : pillarSum c = 0 ∨ ∃ b ∈ c.blocks, b.addr = Gen.PillarContract) :
-    ledgerBalance c Gen.PillarContract Gen.ZnnTokenStandard = pillarSum c ∧
+    ledgerBalance c Gen.PillarContract Gen.ZnnTokenStandard = stored (pillarSum c) ∧
+      (0 ≤ pillarSum c → ledgerBalance c Gen.PillarContract Gen.ZnnTokenStandard = pillarSum c) ∧
       ∀ z, z ≠ Gen.ZnnTokenStandard → ledgerBalance c Gen.PillarContract z = 0 := by
   have h4 := (checkGenesis_ok c h).2.2.2.1
   unfold checkPillarBalance at h4
-  refine ⟨held_required c _ _ h4 _ _ (by simp [lookup]) hex, ?_⟩
+  have hq := held_required c _ _ h4 Gen.ZnnTokenStandard (pillarSum c) (by simp [lookup]) hex
+  refine ⟨hq, fun h0 => by rw [hq, stored_nonneg _ h0], ?_⟩
   intro z hz
   exact held_not_required c _ _ h4 z (by simp [lookup, Ne.symm hz])
 
